@@ -71,8 +71,9 @@ def peers_prop(line, impl, model):
             end_started += 1
         if op in ("e", "ew"):
             if t == "ret-early" or (t == "ret" and gated):
-                return ("end-returned-before-peers-closed|an End call returned while the rendezvous attempt was still in flight or "
-                        "peers were still held open: every End must return only after the first one is done (%s)" % where)
+                return ("end-returned-before-peers-closed|an End call returned while the rendezvous attempt was still in flight or a peer "
+                        "caught for this collection was still open (every End call, also a second overlapping one, may return only once "
+                        "the collection is over) (%s)" % where)
             if t == "ret":
                 end_returned = True
             if t == "blocked" and not gated:
